@@ -388,6 +388,10 @@ def run_irc_check(ck, prop, prefix, replay, n_quick=120, n_thorough=2500, kinds=
         ks = kinds or [None]
         while len(cases) < ncorp + n:
             cases.append(gen.history(ks[len(cases) % len(ks)]))
+        # every kind of scene in short histories of its own, so that no run depends on which scenes the long histories draw
+        for nm in irclib.Gen.SCENES:
+            for _ in range(2 if ck.tier == "quick" else 12):
+                cases.append(gen.scene_history(nm))
         if extra:
             cases += extra(gen)
         if True:
